@@ -35,7 +35,34 @@ pub fn resample_all_pre2<T: Flt>(cfg: &Cfg, x: &[f64], pre: Option<f64>, rejecte
 /// The general form: optional `set_resample_ratio_relative(pre, ramp)` on the fresh resampler,
 /// optional rejected call first.
 pub fn resample_all_opts<T: Flt>(cfg: &Cfg, x: &[f64], pre: Option<f64>, ramp: bool, rejected_first: bool) -> Result<Streamed, String> {
+    resample_all_full::<T>(cfg, x, pre, ramp, rejected_first, 0)
+}
+
+/// The most general form: with `warmup > 0` the resampler first processes that many chunks of a
+/// loud alternating signal (for the sinc types after set_chunk_size(chunk/2)) and is then reset.
+pub fn resample_all_full<T: Flt>(cfg: &Cfg, x: &[f64], pre: Option<f64>, ramp: bool, rejected_first: bool, warmup: usize) -> Result<Streamed, String> {
     let mut r = cfg.build::<T>()?;
+    if warmup > 0 {
+        if cfg.kind.is_sinc() {
+            let _ = r.set_chunk_size((cfg.chunk / 2).max(1));
+        }
+        if cfg.kind.is_async() && cfg.max_rel > 1.0 {
+            let _ = r.set_resample_ratio_relative(cfg.max_rel, true);
+        }
+        let mut ob: Vec<Vec<T>> = r.output_buffer_allocate(true);
+        for k in 0..warmup {
+            let need = r.input_frames_next();
+            let ib: Vec<Vec<T>> = (0..cfg.channels).map(|c| (0..need).map(|i| T::from64(if (i + k + c) % 2 == 0 { 0.9 } else { -0.7 })).collect()).collect();
+            let want = r.output_frames_next();
+            for ch in ob.iter_mut() {
+                if ch.len() < want {
+                    ch.resize(want, T::from64(0.0));
+                }
+            }
+            r.process_into_buffer(&ib, &mut ob, None).map_err(|e| format!("warm-up call {} failed: {}", k, e))?;
+        }
+        r.reset();
+    }
     if let Some(rel) = pre {
         r.set_resample_ratio_relative(rel, ramp).map_err(|e| format!("set_resample_ratio_relative({}) failed: {}", rel, e))?;
     }
